@@ -22,7 +22,7 @@ func init() {
 		ID:    "C18",
 		Title: "Built-in functions obey their algebraic contracts for all arguments",
 		Level: "exploration",
-		Rule: "phase 'twins': two calls of one function that differ in letter case only, each alone and both together; IF guarding a branch that cannot be evaluated. IF with computed branches and a NULL condition; CONCAT / CHANGETYPE texts of numbers by their decimal text (1e6 and more, 1e-7). also: open-ended DATERANGE, CONSTANT inside nested queries next to other options, a defaults map shared between queries, UNWIND over arrays with spare capacity and calls that share their first group. phase 'big': FIRST / LAST / ELEMENTAT over arrays of more than a million elements (indexes whose float text carries an exponent). each case = one built-in function (DECODE/ENCODE, HASH, FIRST, LAST, ELEMENTAT, UNWIND, ARRAY, CONCAT, IF, TO_LOWER, TO_UPPER, CHANGETYPE, DATERANGE, CONSTANT, and every fixed-arity function with arity +-1) x random arguments of every JSON scalar kind and arrays thereof (empty, nested, with NULLs), " +
+		Rule: "DATERANGE over numeric bounds and read as an array by FIRST / LAST. phase 'twins': two calls of one function that differ in letter case only, each alone and both together; IF guarding a branch that cannot be evaluated. IF with computed branches and a NULL condition; CONCAT / CHANGETYPE texts of numbers by their decimal text (1e6 and more, 1e-7). also: open-ended DATERANGE, CONSTANT inside nested queries next to other options, a defaults map shared between queries, UNWIND over arrays with spare capacity and calls that share their first group. phase 'big': FIRST / LAST / ELEMENTAT over arrays of more than a million elements (indexes whose float text carries an exponent). each case = one built-in function (DECODE/ENCODE, HASH, FIRST, LAST, ELEMENTAT, UNWIND, ARRAY, CONCAT, IF, TO_LOWER, TO_UPPER, CHANGETYPE, DATERANGE, CONSTANT, and every fixed-arity function with arity +-1) x random arguments of every JSON scalar kind and arrays thereof (empty, nested, with NULLs), " +
 			"passed both as SQL literals and as column references of a one-row table; indices from {-2,-1,0,n-1,n,n+3}; bases / algorithms / type names incl. unknown ones. The value returned by the real `SELECT f(args) AS v ...` (and its error-ness) is compared with a per-function reference implementation. " +
 			"Non-trivial = every in-domain case (each compares a computed value or an expected error); distinct = distinct (function, arguments).",
 		Assumptions: []string{
@@ -30,7 +30,7 @@ func init() {
 			"textual forms (CONCAT, CHANGETYPE string) are asserted for strings, booleans and finite numbers (by their decimal text, no exponent)",
 			"base / algorithm / type names are given in lower case as the statement spells them; ENCODE/HASH of NULL is not asserted (NULL is not a scalar value)",
 		},
-		Floor:         append([]string{"elementat.big", "if.computed-branch", "if.computed-branch.null-condition", "text.decimal", "twins.literal-case", "twins.name-case", "if.guards-unpicked-branch"}, c18Kinds...),
+		Floor:         append([]string{"elementat.big", "if.computed-branch", "if.computed-branch.null-condition", "text.decimal", "twins.literal-case", "twins.name-case", "if.guards-unpicked-branch", "daterange.numeric-bound", "daterange.as-array"}, c18Kinds...),
 		MinNontrivial: 100,
 		Phases: []fw.Phase{
 			{Name: "fn", N: func(t fw.Tier) int { return pick(t, 30000, 1000000) }, Run: c18Run},
@@ -408,6 +408,21 @@ func c18Run(c *fw.Case) {
 		f := fmt.Sprintf("20%02d-%02d-%02d", c.Intn(30), 1+c.Intn(12), 1+c.Intn(28))
 		t := fmt.Sprintf("20%02d-%02d-%02d", 30+c.Intn(30), 1+c.Intn(12), 1+c.Intn(28))
 		call, want = fmt.Sprintf("DATERANGE(%s, %s)", arg(f), arg(t)), []any{f, t}
+		switch c.Intn(5) {
+		case 0:
+			// a numeric bound (a timestamp) by its decimal text
+			ts := gen.Pick(c.R, []float64{1700000000, 1234567, 86400000, 1e15})
+			txt, _ := numText(ts)
+			call, want = fmt.Sprintf("DATERANGE(%s, %s)", arg(ts), arg(t)), []any{txt, t}
+			c.Feature("daterange.numeric-bound")
+		case 1:
+			// the range is an array like any other
+			call, want = fmt.Sprintf("%s(DATERANGE(%s, %s))", "FIRST", arg(f), arg(t)), f
+			if c.Chance(0.5) {
+				call, want = fmt.Sprintf("%s(DATERANGE(%s, %s))", "LAST", arg(f), arg(t)), t
+			}
+			c.Feature("daterange.as-array")
+		}
 	case "daterange.null":
 		// an open-ended range: the bound that is there stays in its place
 		d := fmt.Sprintf("20%02d-%02d-%02d", c.Intn(60), 1+c.Intn(12), 1+c.Intn(28))
